@@ -269,6 +269,12 @@ def observe_const(fx, np, props, op, tx, cxs, const, side, ois, csizing, xmodes,
             base['route'] = 'operator/history'
         else:
             X = mk(fx, np, tx, cxs, None, rounding=xm[0], overflow=xm[1])
+        # ANOTHER object of the same format, under the other modes, met constants before (nothing about it may stick to the format)
+        try:
+            B = mk(fx, np, tx, cxs[:1], None, rounding='ceil' if xm[0] != 'ceil' else 'floor', overflow='wrap' if xm[1] == 'saturate' else 'saturate')
+            _ = (B + 1), (B + cval), (cval - B), (B * cval)
+        except Exception:
+            pass
         X.config.op_input_size = ois
         X.config.const_op_sizing = csizing
         X.config.op_method = method
